@@ -208,3 +208,77 @@ def rule_idx_single(ctx, R):
                           "%s reaches the element at an index that went through %s (%s) with no comparison of the index against the list's length before it: an index below -len is moved onto the head instead of being refused (LINDEX answers an element, LSET overwrites one)" % (
                               fn.split("::")[-1], shared.short_callee(c), ctx.prog.bodies[w].loc(bb)), b.loc(i))
     R.floor("single_element_accesses_by_client_index", n)
+
+
+# ---- R-RANGE-STOP -------------------------------------------------------------------------------------
+_LOWER_CLAMP = re.compile(r"::(max|saturating_sub|saturating_add|clamp|unwrap_or|unwrap_or_default)(::<.*>)?$")
+
+
+def range_stop_issues(ctx, fn, b):
+    """for a function with two signed index parameters (start, stop -- in that order):
+    (a) lower clamps (`max(0)`, saturating arithmetic) applied to a value that derives from the
+        stop parameter and not from start: a stop below -len must give the EMPTY range, a clamp
+        moves it onto the first element;
+    (b) range-primitive calls (`range_by_rank`) not dominated by a comparison relating the start
+        index and the length (start beyond the end = empty, in both directions)."""
+    sp = [l for l in range(1, b.nargs + 1) if re.match(r"^(isize|i64)$", b.locals[l] or "")]
+    if len(sp) != 2:
+        return None
+    start, stop = sp
+    clamps = []
+    for i, t in b.calls():
+        if b.bbs[i]["cleanup"] or not _LOWER_CLAMP.search(t["f"] or "") or not t["a"]:
+            continue
+        if not re.search(r"(isize|i64|usize|Ord)", t["f"] or ""):
+            continue
+        ps = set()
+        for a in t["a"][:1]:
+            if not op_is_const(a):
+                ps |= prov.operand_origins(b, a, deep=True).params()
+        if stop in ps and start not in ps:
+            # `min` is an upper clamp; `max` a lower one.  saturating_sub on a value derived from
+            # stop only is a lower clamp as well
+            clamps.append((i, shared.short_callee(t["f"])))
+    unrelated = []
+    for i, t in b.calls():
+        if b.bbs[i]["cleanup"] or not re.search(r"::range_by_rank$", t["f"] or ""):
+            continue
+        related = False
+        for d in [x for x in range(len(b.bbs)) if cfg.dominates(b, x, i)]:
+            for st in b.bbs[d]["s"]:
+                if st["k"] == "=" and st["r"]["k"] == "bin" and st["r"].get("op") in _CMP:
+                    Q = [prov.operand_origins(b, o, deep=True) for o in (st["r"]["a"], st["r"]["b"]) if not op_is_const(o)]
+                    if any(start in q.params() for q in Q) and any(q.has_call(r"::len$") for q in Q):
+                        related = True
+        if not related:
+            unrelated.append(i)
+    return clamps, unrelated
+
+
+def rule_range_stop(pid):
+    names = {"C03": ("LRANGE", "LTRIM"), "C04": ("ZRANGE", "ZREVRANGE")}[pid]
+
+    def rule(ctx, R):
+        """index ranges (LRANGE / LTRIM / ZRANGE / ZREVRANGE): after a negative index is counted
+        from the end, a START below 0 becomes 0, but a STOP below 0 means the range is empty --
+        as does a start beyond the last element, whichever direction is read."""
+        reach = rules_cmd.arms_reach(ctx, names)
+        n = 0
+        for fn in sorted(reach):
+            b = ctx.prog.bodies.get(fn)
+            if b is None or not fn.startswith("storage::engine::") or "::tests::" in fn or b.kind == "Closure":
+                continue
+            iss = range_stop_issues(ctx, fn, b)
+            if iss is None:
+                continue
+            clamps, unrelated = iss
+            n += 1
+            R.inst(fn, "index-range", {"function": fn, "lower_clamps_on_stop": [c for _, c in clamps], "range_calls_without_start_vs_length_test": len(unrelated)})
+            for i, c in clamps[:1]:
+                R.finding(fn, "index-range:stop-clamped-from-below:%s" % c.split("::")[-1],
+                          "%s clamps the stop index from below (%s, line %d): a stop that is still negative after counting from the end (stop < -len) means the empty range, the clamp turns it into index 0 and the first element is answered (LRANGE l 0 -10 on three elements; LTRIM keeps an element instead of deleting the key)" % (fn.split("::")[-1], c, b.bb_line(i)), b.loc(i))
+            for i in unrelated[:1]:
+                R.finding(fn, "index-range:start-not-compared-with-length",
+                          "%s reads a rank range (line %d) on a path with no comparison of the start index against the length: a start beyond the last element must give the empty range in both directions (ZREVRANGE z 7 10 on three members answers the lowest one)" % (fn.split("::")[-1], b.bb_line(i)), b.loc(i))
+        R.floor("index_range_methods", n)
+    return rule
